@@ -41,12 +41,12 @@ EXHAUSTIVE_DOMAIN = {
 
 
 def plan(tier, seed):
-    n = 150 if tier == "quick" else 3500
+    n = 600 if tier == "quick" else 9000
     shards = [{"name": "valid-%d" % p, "kind": "valid", "n": n}
-              for p in range(10 if tier == "quick" else 14)]
+              for p in range(14)]
     shards.append({"name": "domains", "kind": "domains"})
     shards.append({"name": "fixtures", "kind": "fixtures",
-                   "n": 3 if tier == "quick" else 40})
+                   "n": 5 if tier == "quick" else 40})
     from . import w7
     mods = ["test_onset.py", "test_tempo.py", "test_key.py", "test_alignment.py",
             "test_pattern.py"]
